@@ -12,7 +12,10 @@ pfx  <arrhex|-> <len> <msghex|->              -> <hex of the bytes packWithPrefi
 pudp <arrhex|-> <len> <msghex|->              -> <hex of the bytes the UDP writer writes>
 preq <udp|tcp> <spare> <bufhex|-> <packedhex|-> -> err | <n> <hex of the buffer afterwards> (packReq; `oldpreq`: pre-fix)
 retry <udp|tcp> <spare> <bufhex|-> <packedhex|-> <parthex|-> -> err | <first write hex> <second write hex>
+wr   <path> <pick|-> <msghex|-> <fail 0|1>    -> <len of the writer's pooled slice> <hex of the bytes written> <put:<len>|drop>
 ```
+`wr` is one response write under the production wiring (`realWiring`): Get from the writer's pool, pack,
+re-slice, write, Put when the write failed (DoQ: always).  `recv` and `wr` share one state (`ServerW`).
 `acc`/`srv` drive the concurrent system (`Sys`): buffers have identities, `acc` is Get + read + guards,
 `srv` is the worker (Unpack of the recorded slice of the buffer as it is now, then Put).
 `outcome` is `reject:<why>` or `view:<hex|->`; `consumed` is the number of stream bytes taken (TCP). -/
@@ -49,7 +52,8 @@ def showOut : Outcome → String
   | .reject w => "reject:" ++ showWhy w
   | .view b => "view:" ++ hex b
 
-def doRecv (old : Bool) (s : Server) (p : Path) (pick pre wire : String) : Server × String :=
+def doRecv (old : Bool) (sw : ServerW) (p : Path) (pick pre wire : String) : ServerW × String :=
+  let s := sw.recvView
   let op : Op := { path := p, pick := if pick == "-" then none else some (nat! pick),
                    pre := unhex pre, wire := unhex wire }
   let tb := takeBuf (s.cfg.size p) (s.free p) op.pick
@@ -60,10 +64,22 @@ def doRecv (old : Bool) (s : Server) (p : Path) (pick pre wire : String) : Serve
   let consumed := match p with
     | .tcp => (recvTCP tb.1 op.wire).2.2
     | _ => op.wire.length
-  (r.1, s!"{seen.length} {hex (seen.take 48)} {showOut r.2} {consumed}")
+  (sw.withRecv r.1, s!"{seen.length} {hex (seen.take 48)} {showOut r.2} {consumed}")
+
+def doWrite (sw : ServerW) (p : Path) (pick msg fail : String) : ServerW × String :=
+  let x : Write := { path := p, pick := if pick == "-" then none else some (nat! pick),
+                     msg := unhex msg, fail := fail == "1" }
+  let seen := match realWiring p with
+    | some pool => (takeBuf (sw.cfg.poolSize pool) (sw.free pool) x.pick).1.length
+    | none => 0
+  let r := writeW realWiring sw x
+  let put := match realWiring p with
+    | some _ => if writerPuts p x.fail then s!"put:{r.2.length}" else "drop"
+    | none => "drop"
+  (r.1, s!"{seen} {hex r.2} {put}")
 
 structure St where
-  srv : Server
+  srv : ServerW
   sys : Sys
 
 def doAcc (y : Sys) (rid : Nat) (p : Path) (bid : Nat) (pre wire : Bytes) : Sys × String :=
@@ -81,7 +97,7 @@ def doAcc (y : Sys) (rid : Nat) (p : Path) (bid : Nat) (pre wire : Bytes) : Sys 
 def step (s : St) : List String → St × String
   | ["init", a, b, c, d, e] =>
     let cfg : Cfg := { udp := nat! a, tcp := nat! b, doq := nat! c, upsUdp := nat! d, upsTcp := nat! e }
-    ({ srv := Server.init cfg, sys := Sys.init cfg }, "ok")
+    ({ srv := ServerW.init cfg, sys := Sys.init cfg }, "ok")
   | ["recv", "doh", _, _, wire] =>
     (s, s!"0 - {showOut (recvDoH (unhex wire))} {(unhex wire).length}")
   | ["recv", path, pick, pre, wire] =>
@@ -91,6 +107,10 @@ def step (s : St) : List String → St × String
   | ["old", path, pick, pre, wire] =>
     match parsePath path with
     | some p => let r := doRecv true s.srv p pick pre wire; ({ s with srv := r.1 }, r.2)
+    | none => (s, "bad-op")
+  | ["wr", path, pick, msg, fail] =>
+    match parsePath path with
+    | some p => let r := doWrite s.srv p pick msg fail; ({ s with srv := r.1 }, r.2)
     | none => (s, "bad-op")
   | ["acc", rid, path, bid, pre, wire] =>
     match parsePath path with
@@ -112,6 +132,6 @@ def step (s : St) : List String → St × String
       | none => "err" | some w => s!"{hex w.1} {hex w.2}")
   | _ => (s, "bad-op")
 
-def main : IO Unit := loop step { srv := Server.init Cfg.prod, sys := Sys.init Cfg.prod }
+def main : IO Unit := loop step { srv := ServerW.init Cfg.prod, sys := Sys.init Cfg.prod }
 
 end Agd.Driver.C06
